@@ -1102,6 +1102,29 @@ fn check_field(
         }
     }
 
+    // model: JSON fields (per-path position bookkeeping)
+    if is_json && exp.total_tokens <= 4000 {
+        let docs: Vec<String> = exp.json_events.iter().map(|evs| evs.join("/")).collect();
+        let ct = if docs.is_empty() { "-".to_string() } else { docs.join(";") };
+        let req = if ct.is_empty() { format!("C07 invert_json {}", spec.opt.name()) } else { format!("C07 invert_json {} {ct}", spec.opt.name()) };
+        let resp = ctx.model.ask(&req);
+        if resp == "bad-op" {
+            ctx.report.violation("model", "C07:model-unavailable", "the Lean driver answers bad-op for invert_json".into(), cj(&[]));
+        } else {
+            ctx.report.count("model:invert-json-requests");
+            let parts: Vec<&str> = resp.split('|').collect();
+            let entries: Vec<String> = readback.iter().map(|(t, l)| format!("{}={}", hex(t), postings_text(l))).collect();
+            let real_terms = if entries.is_empty() { "-".to_string() } else { entries.join(";") };
+            if parts.len() != 2 || parts[0] != real_terms {
+                let m: Vec<&str> = parts.first().map(|p| p.split(';').collect()).unwrap_or_default();
+                let i = (0..m.len().max(entries.len())).find(|i| m.get(*i).copied() != entries.get(*i).map(|s| s.as_str())).unwrap_or(0);
+                let t = readback.get(i).map(|r| r.0.clone()).unwrap_or_default();
+                ctx.report.violation("model", "C07:model-invert-json", format!("JSON field {} ({}): entry {i} of {}: read-back {:?} model {:?}", spec.name, spec.opt.name(), entries.len(), entries.get(i).map(|s| short(s)), m.get(i).map(|s| short(s))), cj(&t));
+            } else if parts[1] != inv.total_num_tokens().to_string() {
+                ctx.report.violation("model", "C07:model-invert-json", format!("JSON field {}: total_num_tokens real {} model {}", spec.name, inv.total_num_tokens(), parts[1]), cj(&[]));
+            }
+        }
+    }
     // model
     if let Some(corpus) = corpus {
         if !av.has("invert") {
